@@ -133,6 +133,12 @@ func runC06(a *A) {
 			for _, c := range opCases(f) {
 				have[c] = true
 			}
+			// the operator switch may sit in a same-package helper the function hands the operator to
+			for _, h := range a.helpersOf(f) {
+				for _, c := range opCases(h) {
+					have[c] = true
+				}
+			}
 			var missing []string
 			for _, o := range ops {
 				if !have[o] {
@@ -791,7 +797,7 @@ func (a *A) ruleCachedProgramFailureFallsBack() int {
 				return
 			}
 			n++
-			bad := pathToExitAvoiding(c, func(x ssa.Instruction) bool {
+			pass := func(x ssa.Instruction) bool {
 				if isExprCall(x, "Eval") {
 					return true
 				}
@@ -802,7 +808,33 @@ func (a *A) ruleCachedProgramFailureFallsBack() int {
 					}
 				}
 				return false
-			}, false)
+			}
+			// a helper that reports failure through a flag instead of an error ((value, ok)) hands the
+			// decision to its callers: judged from each call site
+			starts := []ssa.Instruction{c}
+			hasErr := false
+			if res := fn.Signature.Results(); res.Len() > 0 && isErrorType(res.At(res.Len()-1).Type()) {
+				hasErr = true
+			}
+			if !hasErr {
+				starts = nil
+				if node := a.CG().Nodes[fn]; node != nil {
+					for _, e := range node.In {
+						if a.fnInModule(e.Caller.Func) {
+							starts = append(starts, e.Site)
+						}
+					}
+				}
+			}
+			var bad ssa.Instruction
+			for _, st := range starts {
+				if b := pathToExitAvoiding(st, pass, false); b != nil {
+					bad = b
+				}
+			}
+			if len(starts) == 0 {
+				bad = c
+			}
 			pos := c.Pos()
 			if bad != nil {
 				pos = bad.Pos()
